@@ -739,7 +739,41 @@ def r10_world(f, fn_names):
     f.apply(edits, "R10")
 
 
+def r23_byte_strings(f):
+    """R23: a byte-string literal `b"ab\\n"` -> `&[b'a', b'b', b'\\n']` (same value, same type &[u8; N]; Verus knows the length of a
+    byte-string literal but not its bytes)"""
+    edits = []
+    for t in f.code:
+        if t.kind == "str" and t.text.startswith('b"'):
+            body = t.text[2:-1]
+            out, i = [], 0
+            while i < len(body):
+                ch = body[i]
+                if ch == "\\":
+                    if body[i + 1] == "x":
+                        out.append("b'" + body[i:i + 4] + "'")
+                        i += 4
+                    elif body[i + 1] in "nrt\\0\"'":
+                        esc = body[i + 1]
+                        out.append("b'\\%s'" % ("\"" if esc == "\"" else esc) if esc != "\"" else "b'\"'")
+                        i += 2
+                    else:
+                        raise RuleError("R23: unsupported escape in byte string at line %d" % t.line)
+                elif ch == "'":
+                    out.append("b'\\''")
+                    i += 1
+                elif 32 <= ord(ch) < 127:
+                    out.append("b'%s'" % ch)
+                    i += 1
+                else:
+                    raise RuleError("R23: non-ASCII byte string at line %d" % t.line)
+            edits.append((t.pos, t.end, "&[" + ", ".join(out) + "]"))
+    if edits:
+        f.apply(edits, "R23")
+
+
 RULES = {
+    "R23": r23_byte_strings,
     "R1": r1_drop_tracing,
     "R3": r3_r4_for_heads,
     "R4": r3_r4_for_heads,
@@ -753,7 +787,7 @@ RULES = {
     "R19": r19_underscore_assign,
     "R15": r15_block_on,
 }
-ORDER = ["R1", "R19", "R15", "R16", "R17", "R11", "R7", "R5", "R6", "R3", "R4", "R13"]
+ORDER = ["R1", "R23", "R19", "R15", "R16", "R17", "R11", "R7", "R5", "R6", "R3", "R4", "R13"]
 
 
 def rewrite(text, origin, rules, substs=None, world_calls=None, guard_calls=None):
